@@ -80,6 +80,19 @@ def gen_pair(ctx, nmax):
     mode = r.choice(["lattice", "lattice", "half", "dyadic", "dec", "unif"])
     A_ = gen_dgm(ctx, nmax, mode)
     B_ = gen_dgm(ctx, nmax, mode, other=A_)
+    u = r.random()
+    if u < 0.08 and len(A_) >= 2:
+        # the same multiset of points in another order (the diagonal of a pairwise distance matrix after a shuffle):
+        # distance 0, and the returned rows must pair equal POINTS, not equal positions
+        B_ = [list(p) for p in A_]
+        while B_ == A_ and len({tuple(p) for p in A_}) > 1:
+            r.shuffle(B_)
+        ctx.count("pairs:reordered_copy")
+    elif u < 0.12 and len(A_) >= 2:
+        B_ = [list(p) for p in A_]
+        r.shuffle(B_)
+        B_[r.randrange(len(B_))] = ctx.gen.bar(mode, allow_diag=False)   # a reordered copy with one point replaced
+        ctx.count("pairs:reordered_copy_one_replaced")
     if r.random() < 0.5:
         A_, B_ = B_, A_
     lam = r.choice([1.0, 1.0, 1.0, 2.0 ** -20, 2.0 ** 20, 0.1, 1.0 / 3.0])
